@@ -562,6 +562,32 @@ fn c01(r: &Runner) {
         let u = limb_product(bits, A3).unwrap();
         run_seqs(r, &format!("L({bits};A3)^(0..3) sums"), bits, &u, &[Op::sum_v, Op::sum_r]);
     }
+    // longer sequences (a carry can be needed several times at the same position): all sequences of length 0..=7
+    // over {0, 1, 2^64-1 in every limb, MAX}
+    for bits in [65usize, 128, 192, 257] {
+        let n = nlimbs(bits);
+        let mut vals = vec![vec![0u64; n], { let mut v = vec![0u64; n]; v[0] = 1; v }, { let mut v = vec![u64::MAX; n]; v[n - 1] = mask(bits) >> 1; v }, max_limbs(bits)];
+        vals.dedup();
+        let mut seq: Vec<V> = vec![];
+        let mut cur: Vec<Vec<V>> = vec![vec![]];
+        for _ in 0..7 {
+            let mut nx = vec![];
+            for s in &cur {
+                for v in &vals {
+                    let mut t = s.clone();
+                    t.push(vu(v));
+                    nx.push(t);
+                }
+            }
+            seq.extend(nx.iter().cloned().map(V::L));
+            cur = nx;
+        }
+        r.universe(&format!("{{0,1,MAX/2,MAX}}^(1..7) sums ({} sequences)", seq.len()), bits, seq.len(), |i, l| {
+            l.states(1);
+            exec(l, bits, Op::sum_v, &[seq[i].clone()]);
+            exec(l, bits, Op::sum_r, &[seq[i].clone()]);
+        });
+    }
 }
 
 fn c02(r: &Runner) {
